@@ -18,6 +18,10 @@ from .. import tlc
 from ..net import PeerCodec
 
 GARBAGE = [b"", b"x", b"8", b"8=", b"=FIX", b"\x01", b"8=FI", b"9=5\x01", b"10=000\x01"]
+# longer marker-free garbage (keep-alives, padding, a foreign protocol's line): every one is placed before each frame
+# of a two-frame stream and all 1-cut partitions are fed
+LONG_GARBAGE = [b"10=000\x01", b"<keepalive>", b"\r\n\r\n\r\n\r\n", b"\x00" * 24, b"GET / HTTP/1.1\r\nHost: x\r\n\r\n", b"9=12\x0135=0\x0110=000\x01",
+                b"8=FI" * 5, b"=" * 13, b"x" * 64]
 
 
 def make_stream(rng, nframes, garbage):
@@ -90,6 +94,18 @@ def run(ctx):
         for a, b in pairs:
             jobs.append(("s%d.c%d_%d" % (si, a, b), cuts_to_chunks(stream, [a, b]), ends, expect, keep))
         jobs.append(("s%d.bytes" % si, [bytes([x]) for x in stream], ends, expect, keep))
+    p = PeerCodec("B", "A")
+    for gi, g in enumerate(LONG_GARBAGE):
+        f1 = p.frame("APP", 2, pay="p2")
+        f2 = p.frame(rng.choice(["HB", "APP"]), 3)
+        stream = g + f1 + g + f2
+        ends = [len(g) + len(f1), len(stream)]
+        for c in range(1, len(stream)):
+            jobs.append(("lg%d.c%d" % (gi, c), cuts_to_chunks(stream, [c]), ends, [2] + ([3] if b"35=D" in f2 else []), 0))
+        if not q:
+            L = len(stream)
+            for a, b in rng.sample([(a, b) for a in range(1, L) for b in range(a + 1, L)], 3000):
+                jobs.append(("lg%d.c%d_%d" % (gi, a, b), cuts_to_chunks(stream, [a, b]), ends, [2] + ([3] if b"35=D" in f2 else []), 0))
     for si in range(40 if q else 600):
         stream, ends, expect, keep = make_stream(rng, rng.randint(1, 8), garbage=rng.random() < 0.5)
         L = len(stream)
